@@ -258,6 +258,18 @@ pub fn write_replay<P: Prop>(p: &P, case: &P::Case, msg: &str, seed: u64) -> Str
     path.to_string_lossy().to_string()
 }
 
+/// What kind of failure a message reports: the text up to the first quoted / bracketed detail, with
+/// digits removed. Shrinking only moves to candidates that fail in the same way, so that the
+/// reported case shows the failure that was found and not another one met on the way.
+pub fn failure_kind(msg: &str) -> String {
+    let cut = msg.find(['"', '[', '{', '(']).unwrap_or(msg.len());
+    msg[..cut]
+        .chars()
+        .filter(|c| !c.is_ascii_digit())
+        .take(60)
+        .collect()
+}
+
 /// Structural minimisation of a failing case; a candidate must fail twice in a row to be accepted,
 /// so that a failure that depends on real thread timing does not shrink into an unrelated case.
 pub fn structural_minimise<P: Prop>(
@@ -269,9 +281,10 @@ pub fn structural_minimise<P: Prop>(
 ) -> (P::Case, String) {
     let mut budget = 3000usize;
     let mut scratch = Stats::default();
+    let kind = failure_kind(&msg);
     let fails = |c: &P::Case, scratch: &mut Stats| -> Option<String> {
         match guarded_check(p, c, lane, scratch) {
-            Ok(Err(f)) if known.matches(p.property(), &f).is_none() => Some(f.msg),
+            Ok(Err(f)) if known.matches(p.property(), &f).is_none() && failure_kind(&f.msg) == kind => Some(f.msg),
             _ => None,
         }
     };
@@ -360,8 +373,23 @@ pub fn drive<P: Prop>(p: &P, cases: usize, lanes: usize, seed: u64, known: &Know
                                     }
                                     Ok(())
                                 } else {
+                                    if failed.get() {
+                                        // shrinking: only the failure that was found counts
+                                        let same = first_fail
+                                            .borrow()
+                                            .as_ref()
+                                            .map(|(_, m)| failure_kind(m) == failure_kind(&f.msg))
+                                            .unwrap_or(true);
+                                        if !same {
+                                            return Ok(());
+                                        }
+                                    }
                                     if !failed.get() {
                                         *first_fail.borrow_mut() = Some((case.clone(), f.msg.clone()));
+                                        // developer knob: keep the case as first generated
+                                        if let Ok(path) = std::env::var("VERIF_KEEP_FIRST") {
+                                            let _ = std::fs::write(path, json!({"message": f.msg, "case": &case}).to_string());
+                                        }
                                     }
                                     failed.set(true);
                                     stop.store(true, SeqCst);
